@@ -630,6 +630,25 @@ pub mod rt {
           .min();
         if let Some(w) = wake {
           g.clock = w;
+          if let Some(h) = hooks() {
+            let mut winner = None;
+            let mut others = vec![];
+            for (ix, t) in g.tasks.iter().enumerate() {
+              if t.finished {
+                continue;
+              }
+              if let Pending::Sleep { until } = t.pending {
+                if until == w && winner.is_none() {
+                  winner = Some(ix);
+                } else {
+                  others.push(ix);
+                }
+              }
+            }
+            if let Some(wi) = winner {
+              (h.on_wake)(wi, &others);
+            }
+          }
           continue;
         }
         let unfinished: Vec<usize> =
@@ -911,6 +930,9 @@ pub mod rt {
     let s = site_str(site);
     g.tasks[me].site = s.clone();
     log(&mut g, me, Ev::SleepBegin { nanos }, &s);
+    if let Some(h) = hooks() {
+      (h.on_sleep)(me, nanos);
+    }
     let until = g.clock + nanos.max(1);
     g.tasks[me].pending = Pending::Sleep { until };
     g = reschedule(g, me, true);
@@ -974,6 +996,22 @@ pub mod rt {
 
   pub fn now() -> u64 {
     lock_state().clock
+  }
+
+  /// hooks for a symbolic clock (engine S, C16): the harness mirrors every
+  /// sleep and every advance of the virtual clock with solver terms
+  pub struct TimeHooks {
+    /// (task, nanos) when a task starts to sleep
+    pub on_sleep: Box<dyn Fn(usize, u64) + Send + Sync>,
+    /// (winner, other sleepers) when the clock advances to the winner's wake-up time
+    pub on_wake: Box<dyn Fn(usize, &[usize]) + Send + Sync>,
+  }
+  static HOOKS: StdMutex<Option<Arc<TimeHooks>>> = StdMutex::new(None);
+  pub fn set_time_hooks(h: Option<TimeHooks>) {
+    *HOOKS.lock().unwrap_or_else(|p| p.into_inner()) = h.map(Arc::new);
+  }
+  fn hooks() -> Option<Arc<TimeHooks>> {
+    HOOKS.lock().unwrap_or_else(|p| p.into_inner()).clone()
   }
 
   /// abort the running execution from harness code (fuel exhausted)
